@@ -47,8 +47,8 @@ type FuncContract struct {
 	Ghosts        []string
 	Options       map[string]bool
 	FnCalls       map[string]*FuncContract // assumed contracts of function values called as <expr> (trusted boundary)
-	Inline        bool // callers in the same package execute the body instead of using the contract
-	Panics        []Clause // the function panics (does not return) exactly when one of these holds
+	Inline        bool                     // callers in the same package execute the body instead of using the contract
+	Panics        []Clause                 // the function panics (does not return) exactly when one of these holds
 }
 
 type SpecParam struct{ Name, Type string }
